@@ -17,6 +17,9 @@ class Transc (K : Type) where
   cos : K → K
   exp : K → K
   tanh : K → K
+  /-- `relu(a)ⁿ` with the convention `relu(a)⁰ = step(a)`: `aⁿ` if `a > 0`, else `0` — the library's smooth
+      activation `ReLUn(n)` for `n ≥ 1`; the exponent 0 only arises as the derivative of `n = 1` -/
+  rpow : K → Nat → K
 
 inductive Expr (V : Type) where
   | const : Rat → Expr V
@@ -31,6 +34,7 @@ inductive Expr (V : Type) where
   | cos : Expr V → Expr V
   | exp : Expr V → Expr V
   | tanh : Expr V → Expr V
+  | relun : Expr V → Nat → Expr V
 deriving Repr, BEq, DecidableEq
 
 namespace Expr
@@ -58,6 +62,7 @@ def eval [Add K] [Sub K] [Mul K] [Div K] [Neg K] [Transc K] (ρ : V → K) : Exp
   | cos a => Transc.cos (eval ρ a)
   | exp a => Transc.exp (eval ρ a)
   | tanh a => Transc.tanh (eval ρ a)
+  | relun a n => Transc.rpow (eval ρ a) n
 
 /-- purely syntactic derivative with respect to one scalar coordinate -/
 def D [DecidableEq V] (x : V) : Expr V → Expr V
@@ -73,6 +78,7 @@ def D [DecidableEq V] (x : V) : Expr V → Expr V
   | cos a => neg (mul (sin a) (D x a))
   | exp a => mul (exp a) (D x a)
   | tanh a => mul (sub (const 1) (mul (tanh a) (tanh a))) (D x a)
+  | relun a n => mul (mul (const (n : Rat)) (relun a (n - 1))) (D x a)
 
 /-- iterated derivative, first element of the list applied first -/
 def Dn [DecidableEq V] : List V → Expr V → Expr V
@@ -84,7 +90,7 @@ def vars : Expr V → List V
   | const _ => []
   | var y => [y]
   | add a b | sub a b | mul a b | div a b => vars a ++ vars b
-  | neg a | pow a _ | sin a | cos a | exp a | tanh a => vars a
+  | neg a | pow a _ | sin a | cos a | exp a | tanh a | relun a _ => vars a
 
 /-- rename coordinates (used to place a row-level program at one row of the batch) -/
 def map (f : V → W) : Expr V → Expr W
@@ -100,6 +106,7 @@ def map (f : V → W) : Expr V → Expr W
   | cos a => cos (map f a)
   | exp a => exp (map f a)
   | tanh a => tanh (map f a)
+  | relun a n => relun (map f a) n
 
 /-- every denominator is non-zero at `ρ` (the guard under which division is meaningful) -/
 def Defined [Add K] [Sub K] [Mul K] [Div K] [Neg K] [Transc K] (isZero : K → Prop) (ρ : V → K) : Expr V → Prop
@@ -108,6 +115,7 @@ def Defined [Add K] [Sub K] [Mul K] [Div K] [Neg K] [Transc K] (isZero : K → P
   | add a b | sub a b | mul a b => Defined isZero ρ a ∧ Defined isZero ρ b
   | div a b => Defined isZero ρ a ∧ Defined isZero ρ b ∧ ¬ isZero (eval ρ b)
   | neg a | pow a _ | sin a | cos a | exp a | tanh a => Defined isZero ρ a
+  | relun a _ => Defined isZero ρ a ∧ ¬ isZero (eval ρ a)      -- away from the kink of relu
 
 /-- syntactic "at most affine in `x`": sums of `x`-free terms and (`x`-free) · (affine) products -/
 def affineIn [DecidableEq V] (x : V) : Expr V → Bool
@@ -117,7 +125,7 @@ def affineIn [DecidableEq V] (x : V) : Expr V → Bool
   | mul a b => (!(vars a).contains x && affineIn x b) || (affineIn x a && !(vars b).contains x)
   | div a b => affineIn x a && !(vars b).contains x
   | neg a => affineIn x a
-  | pow a _ | sin a | cos a | exp a | tanh a => !(vars a).contains x
+  | pow a _ | sin a | cos a | exp a | tanh a | relun a _ => !(vars a).contains x
 
 /-- sum of a list of expressions (`tensor.sum()` over the components of one row) -/
 def sumE : List (Expr V) → Expr V
@@ -129,12 +137,17 @@ end Expr
 
 /-! ### scalar instances used by the driver -/
 
+def powF (a : Float) : Nat → Float
+  | 0 => 1
+  | n + 1 => powF a n * a
+
 instance : Transc Float where
   ofRat c := Float.ofInt c.num / Float.ofNat c.den
   sin := Float.sin
   cos := Float.cos
   exp := Float.exp
   tanh := Float.tanh
+  rpow a n := if a > 0 then powF a n else 0
 
 /-- exact rational arithmetic with explicit failure: `none` = "not a rational computation"
     (transcendental function) or division by zero.  No default values. -/
@@ -155,6 +168,7 @@ instance : Transc QE where
   cos _ := ⟨none⟩
   exp _ := ⟨none⟩
   tanh _ := ⟨none⟩
+  rpow a n := ⟨a.v.map fun x => if x > 0 then x ^ n else 0⟩
 end QE
 
 /-- value together with a first-order running bound of the rounding error of evaluating the
@@ -177,6 +191,7 @@ instance : Transc ErrF where
   cos a := mk' (Float.cos a.v) a.e
   exp a := mk' (Float.exp a.v) (Float.exp a.v * a.e)
   tanh a := mk' (Float.tanh a.v) a.e
+  rpow a n := if a.v > 0 then mk' (powF a.v n) ((Float.ofNat n) * powF a.v (n - 1) * a.e + (Float.ofNat n) * powF a.v n) else ⟨0, 0⟩
 end ErrF
 
 end TPV.Expr
